@@ -38,9 +38,9 @@ def block_length(block):
     return sum(1 for n, _ in block if n != "tag")
 
 
-def metered_gas(block, state):
+def metered_gas(block, state, flat_exp=False):
     """(gas, halt) of executing block on state with cold access sets; PUSH0 priced 2."""
-    o = evm.observe(block, state, meter=True)
+    o = evm.observe(block, state, meter="flat_exp" if flat_exp else True)
     return o.gas, o.halt
 
 
